@@ -532,7 +532,7 @@ func (e *Engine) globalAddr(g *ssa.Global) Val {
 		}
 		e.globalAddrs = append(e.globalAddrs, name)
 		el := g.Type().(*types.Pointer).Elem()
-		if _, isIface := el.Underlying().(*types.Interface); isIface && strings.HasPrefix(g.Name(), "Err") {
+		if _, isIface := el.Underlying().(*types.Interface); isIface && isErrName(g.Name()) {
 			e.noteAssumption("package-level Err* variables hold distinct non-nil error values on entry")
 			bn, bs := e.boxMapName(el)
 			init := bn + "!0"
@@ -541,9 +541,11 @@ func (e *Engine) globalAddr(g *ssa.Global) Val {
 			v := fmt.Sprintf("(select %s %s)", init, name)
 			e.S.AddAxiom([]string{name, init}, fmt.Sprintf("(not (= %s (mk_iface 0 0)))", v))
 			for _, o := range e.errGlobals {
-				e.S.AddAxiom([]string{name, o, init}, fmt.Sprintf("(not (= %s (select %s %s)))", v, init, o))
+				// o is "<address> <entry box map>": sentinels of different interface types live in different box maps
+				of := strings.Fields(o)
+				e.S.AddAxiom([]string{name, of[0], init, of[1]}, fmt.Sprintf("(not (= %s (select %s %s)))", v, of[1], of[0]))
 			}
-			e.errGlobals = append(e.errGlobals, name)
+			e.errGlobals = append(e.errGlobals, name+" "+init)
 		}
 	}
 	return term(name, g.Type())
